@@ -32,6 +32,8 @@ type built struct {
 	// expectTags (optional): sample tag -> number of samples the run must have left
 	expectTags func() map[string]int
 	text   string // the ammo / scenario file, for messages
+	// strict: no request failed at the transport level, so the counts must be exact (set before finish)
+	strict bool
 }
 
 func (b *built) cleanup() {
@@ -154,13 +156,16 @@ func buildHTTP(c Case, b *built, viol *violations) (gun, ammo map[string]any, er
 	})
 	b.finish = func() int {
 		recs := tg.Records()
-		if len(recs) != c.Shots {
+		if len(recs) > c.Shots || (b.strict && len(recs) != c.Shots) {
 			viol.add("target: %d requests arrived, the provider was limited to %d ammo", len(recs), c.Shots)
 		}
 		mu.Lock()
 		defer mu.Unlock()
 		// the file is cycled: entry i is delivered floor or ceil of Shots/Entries times
 		lo, hi := c.Shots/p.Entries, (c.Shots+p.Entries-1)/p.Entries
+		if !b.strict {
+			lo = 0
+		}
 		for i, n := range perEntry {
 			if n < lo || n > hi {
 				viol.add("target: entry %d arrived %d times, expected %d..%d (%d ammo over a file of %d entries)", i, n, lo, hi, c.Shots, p.Entries)
@@ -177,7 +182,8 @@ func buildHTTP(c Case, b *built, viol *violations) (gun, ammo map[string]any, er
 		}
 		return out
 	}
-	gun = map[string]any{"type": "http", "target": tg.Addr()}
+	// generous dial timeout: with all shards busy a loopback SYN may need a retransmit
+	gun = map[string]any{"type": "http", "target": tg.Addr(), "dial": map[string]any{"timeout": "20s"}}
 	ammo = map[string]any{"type": ag.ProviderType(p.Format), "file": name, "limit": c.Shots, "preload": p.Preload,
 		"headers": []any{"[X-Common: cfg]"}}
 	return gun, ammo, nil
@@ -230,12 +236,15 @@ func buildGRPC(c Case, b *built, viol *violations) (gun, ammo map[string]any, er
 	})
 	b.finish = func() int {
 		calls := tg.Calls()
-		if len(calls) != c.Shots {
+		if len(calls) > c.Shots || (b.strict && len(calls) != c.Shots) {
 			viol.add("target: %d calls arrived, the provider was limited to %d ammo", len(calls), c.Shots)
 		}
 		mu.Lock()
 		defer mu.Unlock()
 		lo, hi := c.Shots/p.Entries, (c.Shots+p.Entries-1)/p.Entries
+		if !b.strict {
+			lo = 0
+		}
 		for i, n := range perEntry {
 			if n < lo || n > hi {
 				viol.add("target: entry %d arrived %d times, expected %d..%d", i, n, lo, hi)
@@ -833,15 +842,15 @@ func buildHTTPScen(c Case, b *built, viol *violations) (gun, ammo map[string]any
 		recs := tg.Records()
 		j.mu.Lock()
 		defer j.mu.Unlock()
-		if j.seq != c.Shots {
+		if j.seq > c.Shots || (b.strict && j.seq != c.Shots) {
 			viol.add("target: %d scenario invocations began (auth requests), the provider was limited to %d", j.seq, c.Shots)
 		}
-		if want := c.Shots * (1 + max(1, s.Repeat)); len(recs) != want {
+		if want := c.Shots * (1 + max(1, s.Repeat)); len(recs) > want || (b.strict && len(recs) != want) {
 			viol.add("target: %d requests arrived, %d invocations of 1+%d steps make %d", len(recs), c.Shots, max(1, s.Repeat), want)
 		}
 		return len(recs)
 	}
-	gun = map[string]any{"type": "http/scenario", "target": tg.Addr()}
+	gun = map[string]any{"type": "http/scenario", "target": tg.Addr(), "dial": map[string]any{"timeout": "20s"}}
 	ammo = map[string]any{"type": "http/scenario", "file": name, "limit": c.Shots}
 	return gun, ammo, nil
 }
@@ -1075,10 +1084,10 @@ func buildGRPCScen(c Case, b *built, viol *violations) (gun, ammo map[string]any
 		calls := tg.Calls()
 		j.mu.Lock()
 		defer j.mu.Unlock()
-		if j.seq != c.Shots {
+		if j.seq > c.Shots || (b.strict && j.seq != c.Shots) {
 			viol.add("target: %d scenario invocations began (Auth calls), the provider was limited to %d", j.seq, c.Shots)
 		}
-		if want := c.Shots * (2 + max(1, s.Repeat)); len(calls) != want {
+		if want := c.Shots * (2 + max(1, s.Repeat)); len(calls) > want || (b.strict && len(calls) != want) {
 			viol.add("target: %d calls arrived, %d invocations of 2+%d steps make %d", len(calls), c.Shots, max(1, s.Repeat), want)
 		}
 		return len(calls)
